@@ -333,10 +333,13 @@ def gen_cases(inv, all_bundled, rng, per_kind, successor=None):
             pos = [(sec, n) for sec in ("tags", "units", "unitClasses", "unitModifiers", "valueClasses", "attributes", "properties")
                    for n in sorted(inv.entries[sec])
                    if ((inv.entries[sec][n]["lib"] or "") if partnered else inv.library) in ID_RANGES]
-            for sec, n in sample(pos, per_kind * 2):
+            for k_pos, (sec, n) in enumerate(sample(pos, max(per_kind * 2, 8))):
                 lib = (inv.entries[sec][n]["lib"] or "") if partnered else inv.library
                 lo, hi = ID_RANGES[lib]
-                num = rng.choice([lo - 1, hi + 1, 1, 0, 9999999, rng.randrange(0, lo), rng.randrange(hi + 1, hi + 20000)])
+                # every boundary value is used (cyclically over the sampled positions): 0 and 1, just below / above the range, far away
+                outside = [v for v in (0, lo - 1, hi + 1, 1, 9999999, rng.randrange(0, lo) if lo > 0 else 0,
+                                       rng.randrange(hi + 1, hi + 20000)) if not (lo <= v <= hi)]
+                num = outside[k_pos % len(outside)]
                 val = "HED_%07d" % num
                 add("hed_id_range", [{"op": "set_attr", "section": sec, "name": n, "attr": "hedId", "value": val}],
                     sec, tag=n, attr="hedId", what="hedId=%s, range of %r is %s" % (val, lib, (lo, hi)))
